@@ -47,7 +47,7 @@ def replay(pid, harness, failed, tier, spec):
                   open(path, "w"), indent=1)
         return {"status": "unavailable", "path": path, "role": None, "detail": "no native replay driver for harness kind %s" % kind}
     # 1. concrete values
-    r = kani_run.run_one(harness, 0, int(os.environ.get("VERIF_PLAYBACK_TIMEOUT", "2400")), 14000000,
+    r = kani_run.run_one(harness, 0, int(os.environ.get("VERIF_PLAYBACK_TIMEOUT", "2400")), int(os.environ.get("VERIF_PLAYBACK_MEM_KB", "40000000")),
                          extra_args=spec.get("extra_args"), features=spec.get("features"), playback=True,
                          module=spec.get("module"), submod=spec.get("submod", "verif"), memcmp=spec.get("memcmp"),
                          cbmc_extra=["--property", failed[0]["check"]])
